@@ -66,6 +66,7 @@ type VC struct {
 	grefs    map[string]int
 	plan     *replayPlan
 	firstIter []string // replay hints: loop-head state equals the state on loop entry
+	outer    map[ssa.Value]Val // iteration mode: values defined outside the loop
 }
 
 type retInfo struct {
@@ -102,6 +103,7 @@ type Frame struct {
 	oldVals map[string]Val // header-phi values by variable name, for invariants
 	entryMeasure []string
 	done    map[string][]*ssa.BasicBlock
+	iter    *iterMode
 }
 
 func (vc *VC) note(format string, a ...any) {
@@ -326,20 +328,52 @@ func (vc *VC) newFrame(fn *ssa.Function, params []Val, st *State, reach string, 
 	return f
 }
 
+// iteration mode: execute one iteration of a loop (header .. back edge) as if it were a function
+type iterMode struct {
+	header *ssa.BasicBlock
+	body   map[*ssa.BasicBlock]bool
+	phiIn  map[*ssa.Phi]Val
+	next   func(x *ssa.Next) (Val, bool)
+	backs  []iterBack
+	exits  []iterExit
+}
+
+type iterBack struct {
+	cond string
+	st   *State
+	phi  map[*ssa.Phi]Val
+}
+
+type iterExit struct {
+	cond   string
+	target *ssa.BasicBlock
+	st     *State
+}
+
 func (f *Frame) run(reach0 string) {
 	vc := f.vc
 	fn := f.fn
 	order := rpo(fn)
+	start := fn.Blocks[0]
+	if f.iter != nil {
+		start = f.iter.header
+	}
 	for _, b := range order {
+		if f.iter != nil && !f.iter.body[b] {
+			continue
+		}
 		f.curB = b
-		isHeader := f.loops[b] != nil
+		isHeader := f.loops[b] != nil && !(f.iter != nil && b == start)
 		var ins []condState
 		var inPreds []*ssa.BasicBlock
-		if b == fn.Blocks[0] {
+		if b == start {
 			ins = append(ins, condState{reach0, f.entrySt})
 			inPreds = append(inPreds, nil)
 		}
 		for _, p := range b.Preds {
+			if f.iter != nil && b == start {
+				break // the iteration starts here; predecessors are outside or back edges
+			}
 			if b.Dominates(p) && isHeader {
 				continue // back edge
 			}
@@ -413,6 +447,10 @@ func (f *Frame) run(reach0 string) {
 			}
 			f.assumeInvariants(li, phis, st)
 			li.measure0 = f.evalMeasure(li, phis, st)
+		} else if f.iter != nil && b == start {
+			for _, p := range phis {
+				f.vals[p] = f.iter.phiIn[p]
+			}
 		} else {
 			for _, p := range phis {
 				f.vals[p] = phiFromEdges(p, inPreds, conds)
@@ -513,6 +551,28 @@ func (f *Frame) val(v ssa.Value) Val {
 		return Val{typ: c.Type()}
 	case *ssa.FreeVar:
 		unsupported("free variable %s outside closure binding in %s", c.Name(), f.fn)
+	}
+	if f.iter != nil {
+		// defined before the loop: an arbitrary value, shared by all executions of the iteration
+		if x, ok := vc.outer[v]; ok {
+			return x
+		}
+		if pt, ok := v.Type().Underlying().(*types.Pointer); ok && !isStruct(pt.Elem()) {
+			if _, isAlloc := v.(*ssa.Alloc); !isAlloc {
+				unsupported("address computed outside the loop (%s) in %s", v.Name(), f.fn)
+			}
+		}
+		var x Val
+		if r, ok := v.(*ssa.Range); ok {
+			x = Val{typ: r.Type(), rng: &rangeState{x: f.val(r.X), typ: r.X.Type()}}
+		} else {
+			x = vc.paramVal("outer:"+v.Name(), v.Type())
+			if x.addr == nil {
+				vc.sc.assume(vc.te.typeInv(v.Type(), x.t, 0, vc.he.get(vc.entry, "ALLOC", "Int")))
+			}
+		}
+		vc.outer[v] = x
+		return x
 	}
 	unsupported("value %T %s not yet computed in %s", v, v.Name(), f.fn)
 	return Val{}
@@ -733,6 +793,15 @@ func (f *Frame) alloc(t types.Type, name string) Val {
 		f.scatter(t, r, vc.te.zero(t))
 		return Val{t: r, typ: pt}
 	}
+	if at, ok := t.Underlying().(*types.Array); ok && isStruct(at.Elem()) {
+		// an array of structs is its own backing array: element i lives at elem(r, i)
+		if at.Len() <= 8 {
+			for i := int64(0); i < at.Len(); i++ {
+				f.scatter(at.Elem(), vc.elemRef(r, num(i)), vc.te.zero(at.Elem()))
+			}
+		}
+		return Val{t: r, typ: pt}
+	}
 	l, li := locCell(t)
 	a := &Addr{kind: "C", loc: l, li: li, ref: r, typ: t}
 	f.writeAddr(a, vc.te.zero(t))
@@ -787,6 +856,10 @@ func (f *Frame) instr(instr ssa.Instruction) bool {
 		case *types.Pointer:
 			at := xt.Elem().Underlying().(*types.Array)
 			f.safe("idx", and(app("<=", "0", idx), app("<", idx, num(at.Len()))), "array index "+x.X.Name()+"["+x.Index.Name()+"]", x.Pos())
+			if isStruct(at.Elem()) && base.addr == nil {
+				f.vals[x] = Val{t: vc.sc.define("elem", "Int", vc.elemRef(base.t, idx)), typ: x.Type()}
+				break
+			}
 			if base.addr == nil {
 				unsupported("array pointer that is not an address in %s", f.fn)
 			}
@@ -952,6 +1025,33 @@ func (f *Frame) instr(instr ssa.Instruction) bool {
 }
 
 func (f *Frame) backEdges(b *ssa.BasicBlock) {
+	if f.iter != nil {
+		for _, s := range b.Succs {
+			cond, ok := f.edge[[2]int{b.Index, s.Index}]
+			if !ok {
+				continue
+			}
+			if s == f.iter.header {
+				phi := map[*ssa.Phi]Val{}
+				for _, instr := range s.Instrs {
+					p, isPhi := instr.(*ssa.Phi)
+					if !isPhi {
+						break
+					}
+					for i, bp := range s.Preds {
+						if bp == b {
+							phi[p] = f.val(p.Edges[i])
+						}
+					}
+				}
+				f.iter.backs = append(f.iter.backs, iterBack{cond, f.cur, phi})
+				delete(f.edge, [2]int{b.Index, s.Index})
+			} else if !f.iter.body[s] {
+				f.iter.exits = append(f.iter.exits, iterExit{cond, s, f.cur})
+				delete(f.edge, [2]int{b.Index, s.Index})
+			}
+		}
+	}
 	for _, s := range b.Succs {
 		li := f.loops[s]
 		if li == nil || !s.Dominates(b) {
@@ -1199,6 +1299,11 @@ func (f *Frame) sliceOp(x *ssa.Slice) {
 			hi = n
 		}
 		f.safe("slice", and(app("<=", "0", lo), app("<=", lo, hi), app("<=", hi, n)), "array slice", x.Pos())
+		if isStruct(at.Elem()) && base.addr == nil {
+			// the array of structs is its own backing array
+			f.vals[x] = Val{t: vc.sc.define("slice", sortSlice, app("mk_slice", base.t, lo, app("-", hi, lo), app("-", n, lo))), typ: x.Type()}
+			break
+		}
 		// copy the array into a fresh backing array (aliasing with the array variable is lost: reads only)
 		if base.addr == nil {
 			unsupported("slice of array pointer in %s", f.fn)
@@ -1256,6 +1361,12 @@ func (f *Frame) lookup(x *ssa.Lookup) {
 
 func (f *Frame) next(x *ssa.Next) {
 	vc := f.vc
+	if f.iter != nil && f.iter.next != nil {
+		if v, ok := f.iter.next(x); ok {
+			f.vals[x] = v
+			return
+		}
+	}
 	it := f.val(x.Iter)
 	if it.rng == nil {
 		unsupported("next on unknown iterator in %s", f.fn)
